@@ -64,7 +64,7 @@ def positions_of(t, n):
 @register
 class APE_process_data(FnContract):
     name = M + "APE.process_data"
-    props = ["C01", "C16"]
+    props = ["C01"]
 
     def cases(self):
         out = []
@@ -147,7 +147,7 @@ class RPE_rpe_base(FnContract):
 @register
 class RPE_process_data(FnContract):
     name = M + "RPE.process_data"
-    props = ["C02", "C16"]
+    props = ["C02"]
 
     def cases(self):
         out = []
@@ -382,7 +382,7 @@ class change_unit(FnContract):
 @register
 class get_result(FnContract):
     name = M + "PE.get_result"
-    props = ["C12", "C16"]
+    props = ["C12"]
 
     def cases(self):
         out = [{"cls": "APE", "relation": r} for r in RELATIONS if r != "point_distance_error_ratio"]
